@@ -94,7 +94,7 @@ def main(argv):
                 continue
             out['evaluations'] += getattr(res, 'evals', None) or 1
             if res.nontrivial and res.sig is not None:
-                if isinstance(res.sig, (set, list, tuple, frozenset)):
+                if isinstance(res.sig, (set, frozenset)):
                     sigs.update(sighash(s) for s in res.sig)
                 else:
                     sigs.add(sighash(res.sig))
